@@ -126,7 +126,9 @@ func (ex *Exec) Discharge(outDir string, timeoutS, seed, workers int, agree bool
 		if o.Kind != "cover" && o.Goal.S == "true" {
 			o.Status = "unsat"
 			o.Solver = "syntactic"
+			stats.mu.Lock()
 			stats.ByBackend["syntactic"]++
+			stats.mu.Unlock()
 			continue
 		}
 		if len(o.Unsupp) > 0 && o.Kind != "cover" {
